@@ -25,6 +25,9 @@ ERRORS = {
     "undefined-operand-unsized-indirect": ("lda (verif_no_such_symbol),y", None, "node"),
     "undefined-immediate-unsized": ("lda #verif_no_such_symbol + 1", None, "node"),
     "undefined-jump-target": ("jmp verif_no_such_symbol", None, "node"),
+    # a data list continued on the next line: the statement is where its directive is written -- that line is named and quoted
+    "undefined-data-on-a-continuation-line": (".dw 0x1234,\n    verif_no_such_symbol", None, "node"),
+    "undefined-data-on-the-third-line-of-a-list": (".db 1, 2,\n    3, 4,\n    verif_no_such_symbol, 6", None, "node"),
     # characters outside ASCII on the erroneous line (comments in French / Japanese): the quoted text is the line as written, columns count characters
     "undefined-operand-before-a-non-ascii-comment": ("lda.w verif_no_such_symbol ; d\u00e9j\u00e0 vu \u30c6\u30b9\u30c8", None, "node"),
     "bad-size-after-a-non-ascii-comment": ("/* caf\u00e9 \u30a2 */ lda.q 0x10", len("/* caf\u00e9 \u30a2 */ lda."), "scan"),
@@ -81,6 +84,12 @@ def check(case):
         lines = base.split("\n")
         at = case["line"]
         new = lines[:at] + [stmt] + lines[at:]
+    margin = case.get("margin", "")
+    if margin:
+        # the whole file is indented by one common margin (sources pasted from an indented listing): positions and the quoted line are those of the file AS IT IS
+        new = [margin + l if l.strip() else l for l in new]
+        stmt = "\n".join(margin + x for x in stmt.split("\n"))
+        col = None if col is None else col + len(margin)
     d = tempfile.mkdtemp(prefix="vfC17")
     try:
         if case["included"]:
@@ -105,7 +114,8 @@ def check(case):
             return f"error names file {f!r}, the statement is in {want_file!r}"
         if line != want_line:
             return f"error names line {line}, the statement `{stmt.strip()}` is on zero-based line {want_line}"
-        if stmt not in text and stmt.strip() not in text:
+        quoted = stmt.split("\n")[0]
+        if quoted not in text and (margin or quoted.strip() not in text):
             return f"the error does not quote the statement's line: {text[:160]!r}"
         if col is not None and (c is None or int(c) != col):
             return f"column {c}, the offending character of `{stmt}` is at column {col}"
@@ -115,6 +125,12 @@ def check(case):
 
 
 def gen(tier, rng):
+    for b in range(len(BASES)):
+        positions = top_level_positions(BASES[b])
+        for err in ERRORS:
+            for margin in ("    ", "\t"):
+                if tier == "thorough" or (len(err) + b + len(margin)) % 3 == 0:
+                    yield {"base": b, "error": err, "line": positions[(len(err) + b) % len(positions)], "included": (len(err) + b) % 2 == 0, "margin": margin}
     for m in range(len(MACRO_BASES)):
         for err in ERRORS:
             for included in (False, True):
